@@ -40,10 +40,12 @@ import (
 	"github.com/prometheus/client_golang/prometheus"
 	commoncfg "github.com/prometheus/common/config"
 	"github.com/prometheus/common/model"
+	"github.com/prometheus/common/promslog"
 
 	"github.com/prometheus/alertmanager/config"
 	amcommoncfg "github.com/prometheus/alertmanager/config/common"
 	"github.com/prometheus/alertmanager/dispatch"
+	"github.com/prometheus/alertmanager/featurecontrol"
 	"github.com/prometheus/alertmanager/matcher/compat"
 
 	"verifharness/appsys"
@@ -414,7 +416,7 @@ func dumpRoute(r *dispatch.Route, sb *strings.Builder, indent string) {
 	sort.Strings(gb)
 	ms := []string{}
 	for _, m := range r.Matchers {
-		ms = append(ms, m.String())
+		ms = append(ms, fmt.Sprintf("%v|%q|%q", m.Type, m.Name, m.Value))
 	}
 	sort.Strings(ms)
 	fmt.Fprintf(sb, "%srecv=%q by=%v all=%v gw=%v gi=%v ri=%v mute=%v active=%v match=%v cont=%v labels=%v\n", indent,
@@ -428,7 +430,7 @@ func dumpRoute(r *dispatch.Route, sb *strings.Builder, indent string) {
 func dumpMatchers(ms amcommoncfg.Matchers) []string {
 	out := []string{}
 	for _, m := range ms {
-		out = append(out, m.String())
+		out = append(out, fmt.Sprintf("%v|%q|%q", m.Type, m.Name, m.Value)) // by (type, name, value), not through the printer
 	}
 	sort.Strings(out)
 	return out
@@ -503,6 +505,7 @@ type runner struct {
 	env vh.Env
 	t   *testing.T
 	secretPaths map[string]bool
+	coordHung   bool
 }
 
 func (x *runner) violate(key, what string, c Case) {
@@ -744,7 +747,43 @@ func textPanicKey(text, fn string) string {
 }
 
 // reload: a coordinator, 1..3 transactional subscribers, a sequence of file contents
+// coordCall runs one coordinator operation under a recover and its own watchdog: nominally 5 s, then 10 s of grace
+// for a loaded machine (a call blocked on the coordinator's mutex never returns). A hung call's goroutine is abandoned.
+func coordCall(f func() error) (err error, pan string, hung bool) {
+	type res struct {
+		err error
+		pan string
+	}
+	done := make(chan res, 1)
+	go func() {
+		var out res
+		defer func() {
+			if p := recover(); p != nil {
+				out.pan = fmt.Sprint(p)
+			}
+			done <- out
+		}()
+		out.err = f()
+	}()
+	select {
+	case o := <-done:
+		return o.err, o.pan, false
+	case <-time.After(5 * time.Second):
+	}
+	select {
+	case o := <-done:
+		slowLoads.Add(1)
+		return o.err, o.pan, false
+	case <-time.After(10 * time.Second):
+		return nil, "", true
+	}
+}
+
 func (x *runner) reloadCase(seed uint64) {
+	if x.coordHung {
+		x.run.Count("stream", "reload-skipped-after-a-hang")
+		return
+	}
 	r := vh.NewRand(seed)
 	dir, err := os.MkdirTemp("", "c17rl")
 	if err != nil {
@@ -781,7 +820,8 @@ func (x *runner) reloadCase(seed uint64) {
 			return nil
 		})
 	}
-	nsteps := r.Range(2, 8)
+	nsteps := r.Range(2, 9)
+	rejectedBefore := false
 	var loads, obs []string
 	var steps []string
 	cs := Case{Kind: "reload", Seed: seed}
@@ -789,7 +829,36 @@ func (x *runner) reloadCase(seed uint64) {
 		id := s + 1
 		good := fmt.Sprintf("route: {receiver: cfg-%d}\nreceivers: [{name: cfg-%d}]\n", id, id)
 		kind := "good"
+		op := co.Reload
+		// other operations of the coordinator, interleaved with the reloads (more often right after a rejected one)
+		if k := r.Intn(12); k == 0 || (rejectedBefore && k < 3) {
+			_, pan, hung := coordCall(func() error { co.Subscribe(func(*config.Config) error { return nil }); return nil })
+			x.run.Count("reload_step", "subscribe")
+			steps = append(steps, "subscribe")
+			cs.Obs = strings.Join(steps, " ")
+			if hung {
+				x.coordHang("Subscribe", rejectedBefore, cs)
+				return
+			}
+			if pan != "" {
+				x.violate("reload-panics:subscribe", "Coordinator.Subscribe panics: "+pan, cs)
+			}
+		}
+		applyKind := ""
+		if r.Chance(1, 6) {
+			if r.Chance(1, 4) {
+				applyKind = "apply-nil"
+				op = func() error { return co.ApplyConfig(nil) }
+			} else if c, err := config.Load(good); err == nil {
+				applyKind = "apply"
+				op = func() error { return co.ApplyConfig(c) }
+			}
+		}
 		switch k := r.Intn(10); {
+		case applyKind == "apply-nil":
+			kind = "apply-nil"
+		case applyKind == "apply":
+			x.run.Count("reload_step", "apply-config")
 		case k < 4:
 			os.WriteFile(path, []byte(good), 0o644)
 		case k == 4:
@@ -813,17 +882,14 @@ func (x *runner) reloadCase(seed uint64) {
 			os.WriteFile(path, []byte(fmt.Sprintf("route: {receiver: cfg-%d}\nreceivers: [{name: cfg-%d, webhook_configs: [null]}]\n", id, id)), 0o644)
 		}
 		before := append([]int{}, live...)
-		var rerr error
-		pan := ""
-		func() {
-			defer func() {
-				if p := recover(); p != nil {
-					pan = fmt.Sprint(p)
-				}
-			}()
-			rerr = co.Reload()
-		}()
+		rerr, pan, hung := coordCall(op)
 		x.run.Count("reload_step", kind)
+		if hung {
+			steps = append(steps, kind+"->HANG")
+			cs.Obs = strings.Join(steps, " ")
+			x.coordHang("Reload/ApplyConfig ("+kind+")", rejectedBefore, cs)
+			return
+		}
 		steps = append(steps, fmt.Sprintf("%s->%v", kind, rerr == nil && pan == ""))
 		cs.Obs = strings.Join(steps, " ")
 		if pan != "" {
@@ -831,6 +897,7 @@ func (x *runner) reloadCase(seed uint64) {
 		}
 		okStep := rerr == nil && pan == ""
 		if kind != "good" {
+			rejectedBefore = true
 			loads = append(loads, "None")
 			if okStep {
 				x.violate("bad-file-accepted-by-reload", "Reload returned nil for a "+kind+" file", cs)
@@ -860,6 +927,17 @@ func (x *runner) reloadCase(seed uint64) {
 	}
 	x.run.Count("stream", "reload")
 	x.run.Add(vh.App("CReload", vh.List(rj), vh.List(loads), vh.List(obs)), cs, true)
+}
+
+// coordHang: a coordinator call did not return. The coordinator of this case is abandoned (its goroutine stays
+// blocked) and, to keep the check fast, the remaining reload cases of the run are skipped.
+func (x *runner) coordHang(what string, afterRejected bool, cs Case) {
+	x.coordHung = true
+	key := "reload-hangs"
+	if afterRejected {
+		key = "reload-hangs-after-rejected-reload"
+	}
+	x.violate(key, "Coordinator."+what+" did not return within 15 s (sequence: "+cs.Obs+"): every later reload / ApplyConfig / Subscribe blocks", cs)
 }
 
 // ---- concurrent engine: reload || status rendering ----
@@ -1151,6 +1229,13 @@ func TestCheck(t *testing.T) {
 	// true = the replay file held an app-engine case and has been handled.
 	if appsys.Part(t, env, run, "C17") {
 		return
+	}
+	// the matcher parser / label-name mode of the binary's default (fallback: UTF-8 parser, classic result on
+	// disagreement), set as cmd/alertmanager does; go test would otherwise run the package default (classic)
+	if ff, err := featurecontrol.NewFlags(promslog.NewNopLogger(), ""); err == nil {
+		compat.InitFromFlags(promslog.NewNopLogger(), ff)
+	} else {
+		t.Fatal(err)
 	}
 	x := &runner{run: run, env: env, t: t, secretPaths: map[string]bool{}}
 	if commoncfg.MarshalSecretValue {
